@@ -363,6 +363,7 @@ Definition stream_connect (f : flow) : list cmd :=
 Inductive event :=
 | EReq (c : N) (is_proxy is_connect replay streaming : bool) (hs : headers)
 | ESocks (c : N) (u p : str).                     (* decoded user/password of a SOCKS5 sub-negotiation *)
+Definition ev_conn (e : event) : N := match e with EReq c _ _ _ _ _ => c | ESocks c _ _ => c end.
 Inductive outcome :=
 | OHttp (f : flow) (cmds : list cmd)
 | OSocks (valid : bool).
